@@ -1,20 +1,41 @@
-use redb::*;
-use vcore::backend::RecBackend;
-const T: TableDefinition<u64, u64> = TableDefinition::new("t0");
+use std::sync::{Arc, Mutex};
+#[derive(Debug, Clone)]
+struct Shared3(Arc<Mutex<Vec<u8>>>);
+impl redb3::StorageBackend for Shared3 {
+    fn len(&self) -> Result<u64, std::io::Error> { Ok(self.0.lock().unwrap().len() as u64) }
+    fn read(&self, offset: u64, out: &mut [u8]) -> Result<(), std::io::Error> { let g = self.0.lock().unwrap(); out.copy_from_slice(&g[offset as usize..offset as usize + out.len()]); Ok(()) }
+    fn set_len(&self, len: u64) -> Result<(), std::io::Error> { self.0.lock().unwrap().resize(len as usize, 0); Ok(()) }
+    fn sync_data(&self) -> Result<(), std::io::Error> { Ok(()) }
+    fn write(&self, offset: u64, data: &[u8]) -> Result<(), std::io::Error> { let mut g = self.0.lock().unwrap(); g[offset as usize..offset as usize + data.len()].copy_from_slice(data); Ok(()) }
+}
+impl redb::StorageBackend for Shared3 {
+    fn len(&self) -> Result<u64, std::io::Error> { Ok(self.0.lock().unwrap().len() as u64) }
+    fn read(&self, offset: u64, out: &mut [u8]) -> Result<(), std::io::Error> { let g = self.0.lock().unwrap(); out.copy_from_slice(&g[offset as usize..offset as usize + out.len()]); Ok(()) }
+    fn set_len(&self, len: u64) -> Result<(), std::io::Error> { self.0.lock().unwrap().resize(len as usize, 0); Ok(()) }
+    fn sync_data(&self) -> Result<(), std::io::Error> { Ok(()) }
+    fn write(&self, offset: u64, data: &[u8]) -> Result<(), std::io::Error> { let mut g = self.0.lock().unwrap(); g[offset as usize..offset as usize + data.len()].copy_from_slice(data); Ok(()) }
+}
 fn main() {
-    let b = RecBackend::new(false);
-    let mut bld = Builder::new();
-    bld.verif_set_page_size(512); bld.verif_set_region_size(65536);
-    let db = bld.create_with_backend(b.clone()).unwrap();
-    let w = db.begin_write().unwrap();
-    { let mut t = w.open_table(T).unwrap(); for i in 0..100 { t.insert(i, i).unwrap(); } }
-    w.commit().unwrap();
-    let s = db.verif_snapshot();
-    println!("regions {} first allocated {:?} data_root {:?} sys {:?}", s.regions.len(), s.regions.iter().map(|r| r.allocated.len()).collect::<Vec<_>>(), s.data_root, s.system_root);
-    let p = db.verif_peek_page(s.data_root.unwrap().page).unwrap();
-    println!("root page type {} len {}", p[0], p.len());
-    let m = redb::verif::Mem::new(512, 65536).unwrap();
-    let a = m.allocate(512, false).unwrap(); let b2 = m.allocate(2000, true).unwrap();
-    println!("{a:?} {b2:?} regions {}", m.snapshot().regions.len());
-    m.free(a);
+    for (n, del, reopen_twice) in [(0usize,false,false),(1,false,false),(1,false,true),(50,false,true),(300,false,true),(300,true,true),(2000,false,true),(2000,true,true)] {
+        let b = Shared3(Arc::new(Mutex::new(vec![])));
+        let db = redb::Database::builder().create_with_backend(b.clone()).unwrap();
+        let d: redb::TableDefinition<u64,&[u8]> = redb::TableDefinition::new("t0");
+        if n > 0 {
+            let w = db.begin_write().unwrap();
+            { let mut t = w.open_table(d).unwrap(); for i in 0..n as u64 { t.insert(i, vec![7u8; 1000].as_slice()).unwrap(); } }
+            w.commit().unwrap();
+            if del {
+                let w = db.begin_write().unwrap();
+                { let mut t = w.open_table(d).unwrap(); t.retain(|_,_| false).unwrap(); }
+                w.commit().unwrap();
+            }
+        }
+        drop(db);
+        let l1 = b.0.lock().unwrap().len();
+        if reopen_twice { let db = redb::Database::builder().create_with_backend(b.clone()).unwrap(); drop(db); }
+        let l2 = b.0.lock().unwrap().len();
+        let mut db = redb3::Database::builder().create_with_backend(b.clone()).unwrap();
+        let r = db.check_integrity();
+        println!("n={n} del={del} reopen={reopen_twice}: len {l1} -> {l2} pages {}: old check_integrity {:?}", l2/4096, r);
+    }
 }
